@@ -92,6 +92,8 @@ def root_of(t: T) -> T:
             t = t.args[0]
         elif t.op == "assume":
             t = t.args[1]
+        elif t.op in ("listappend", "listextend"):
+            t = t.args[0]
         elif t.op == "loopvar":
             t = t.args[2]
         elif t.op == "loopout":
@@ -538,6 +540,14 @@ class Evaluator:
     def _s_Expr(self, s, st):
         v = self._expr(s.value, st)
         self._emit("expr", s, st, value=v)
+        # in-place growth of a local list: x.append(v) / x.extend(v) rebinds x to the grown list
+        c = s.value
+        if isinstance(c, ast.Call) and isinstance(c.func, ast.Attribute) and c.func.attr in ("append", "extend") \
+                and isinstance(c.func.value, ast.Name) and c.func.value.id in st.loc and len(c.args) == 1 \
+                and not c.keywords and v.op == "call" and v.args[1]:
+            old = st.loc[c.func.value.id]
+            if old.op in ("list", "listappend", "loopvar", "ite", "call", "assume", "loopout"):
+                st.loc[c.func.value.id] = mk("listappend" if c.func.attr == "append" else "listextend", old, v.args[1][0])
         return [_Exit("fall", st)]
 
     def _s_Import(self, s, st):
